@@ -16,31 +16,17 @@
         if n == 1usize << j { assert!(n.is_power_of_two()); }
     }
     // bloom_codec / bloom_core / theta_codec: {u64,usize,u32}::div_ceil(a, b) == (a + b - 1) / b over the integers (b > 0).
-    // (1) complete, every a and b: div_ceil is a / b rounded up: a / b + (1 if a % b != 0).  The step from there to (a + b - 1) / b is a
-    //     pure integer-arithmetic identity (no std content).  A direct full-domain check of r*b <= a+b-1 < (r+1)*b needs the equivalence
-    //     of two 64-bit multiplier circuits: no verdict in 10 min (u32) / 10 min (u64), so it is NOT claimed.
+    // Full-domain proofs with a SYMBOLIC divisor are out of reach of the SAT back end (two 64-bit divider circuits have to be proved
+    // equivalent): r*b <= a+b-1 < (r+1)*b: no verdict in 10 min (u32 and u64); even div_ceil(a,b) == a/b + (a%b != 0): no verdict in 500 s.
+    // What is proved: (1) BOUNDED: the contract for all operands below 2^12 (in the real u64 / usize / u32 types);
     #[kani::proof]
-    fn shim_div_ceil_def() {
-        let a: u64 = kani::any(); let b: u64 = kani::any(); kani::assume(b > 0);
-        assert!(a.div_ceil(b) == a / b + (if a % b != 0 { 1 } else { 0 }));
-        let a: usize = kani::any(); let b: usize = kani::any(); kani::assume(b > 0);
-        assert!(a.div_ceil(b) == a / b + (if a % b != 0 { 1 } else { 0 }));
-        let a: u32 = kani::any(); let b: u32 = kani::any(); kani::assume(b > 0);
-        assert!(a.div_ceil(b) == a / b + (if a % b != 0 { 1 } else { 0 }));
+    fn shim_div_ceil_small_operands() {
+        let a: u64 = kani::any(); let b: u64 = kani::any(); kani::assume(b > 0 && a < 4096 && b < 4096);
+        assert!(a.div_ceil(b) == (a + b - 1) / b);
+        assert!((a as usize).div_ceil(b as usize) == ((a + b - 1) / b) as usize);
+        assert!((a as u32).div_ceil(b as u32) == ((a + b - 1) / b) as u32);
     }
-    // (2) the contract itself, r == (a + b - 1) / b in wide arithmetic, for every a and every divisor b <= 255
-    #[kani::proof]
-    fn shim_div_ceil_u64_small_divisor() {
-        let a: u64 = kani::any(); let b: u8 = kani::any(); kani::assume(b > 0);
-        let r = a.div_ceil(b as u64) as u128; let x = (a as u128) + (b as u128) - 1;
-        assert!(r * (b as u128) <= x && x < (r + 1) * (b as u128));
-    }
-    #[kani::proof]
-    fn shim_div_ceil_u32_small_divisor() {
-        let a: u32 = kani::any(); let b: u8 = kani::any(); kani::assume(b > 0);
-        let r = a.div_ceil(b as u32) as u64; let x = (a as u64) + (b as u64) - 1;
-        assert!(r * (b as u64) <= x && x < (r + 1) * (b as u64));
-    }
+    // (2) COMPLETE in the dividend for the divisors of the call sites (next harness).
     // the divisor of every call site is the constant 64 (bloom: num_bits.div_ceil(64)); theta_codec: usize::div_ceil(_, 8) / u32::div_ceil(_, 8)
     #[kani::proof]
     fn shim_div_ceil_u64_by_const() {
